@@ -611,3 +611,54 @@ fire("c17_sibling_diverge", "C17", [(PATTERN, '''    except ASTPatternDefinition
 fire("c17_grammar_new_rule", "C17", [("src/pyoak/match/grammar.py", 'value: tree | var | NONE | ESCAPED_STRING', 'value: tree | var | NONE | ESCAPED_STRING | neg\n\nneg: "!" value')], "R-GRAM-EXH")
 fire("c17_no_ws_ignore", "C17", [("src/pyoak/match/grammar.py", "%ignore WS\n", "")], "R-WS")
 silent("c17_baseexception", "C17", [(XPATH, "        except Exception as e:\n            raise ASTXpathDefinitionError(\"Incorrect xpath definition\") from e\n", "        except BaseException as err:\n            raise ASTXpathDefinitionError(\"Incorrect xpath definition\") from err\n")])
+
+# ---------------------------------------------------------------- C06
+fire("c06_fill_children_only", "C06", [(TREE, "        for n in root.dfs():", "        for n in root.dfs(prune=lambda i: True):")], "R-TREE-FILL")
+fire("c06_parentinfo_swapped", "C06", [(TREE, "ParentInfo(n.parent, n.field, n.findex)", "ParentInfo(n.node, n.field, n.findex)")], "R-TREE-FILL")
+fire("c06_xpath_index_from_1", "C06", [(TREE, "[{n.findex or '0'}]", "[{(n.findex or 0) + 1}]")], "R-TREE-FILL")
+fire("c06_is_ancestor_eq", "C06", [(TREE, "            if a is ancestor:", "            if a == ancestor:")], "R-TREE-IDENT")
+fire("c06_get_parent_eq_root", "C06", [(TREE, "        if node is self._root:\n            return None\n\n        return self._node_to_parent_info[node].parent", "        if node == self._root:\n            return None\n\n        return self._node_to_parent_info[node].parent")], "R-TREE-IDENT")
+fire("c06_get_parent_default", "C06", [(TREE, "        return self._node_to_parent_info[node].parent", "        info = self._node_to_parent_info.get(node)\n        return info.parent if info else None")], "R-TREE-RAISE")
+fire("c06_depth_no_valueerror", "C06", [(TREE, "        if relative_to is not None and check_ancestor and not self.is_ancestor(node, relative_to):\n            raise ValueError(\"relative_to must be an ancestor of the node\")\n", "")], "R-TREE-RAISE")
+fire("c06_ancestors_include_self", "C06", [(TREE, "        parent = self.get_parent(node)\n        while parent is not None:\n            yield parent", "        parent = node\n        while parent is not None:\n            yield parent")], "R-TREE-CHAIN")
+fire("c06_first_ancestor_exact_ignored", "C06", [(TREE, "            if exact_type and type(ancestor) in ancestor_classes:\n                return cast(_AT, ancestor)\n\n            if not exact_type and isinstance(ancestor, ancestor_classes):", "            if isinstance(ancestor, ancestor_classes):")], "R-TREE-TYPE")
+fire("c06_depth_off_by_one", "C06", [(TREE, "        if parent is None:\n            return 0\n", "        if parent is None:\n            return 1\n")], "R-TREE-RAISE")
+silent("c06_equivalent", "C06", [(TREE, "        return self._root is node\n", "        return node is self._root\n")])
+
+# ---------------------------------------------------------------- C04
+fire("c04_deser_no_force_id", "C04", [(NODE, '''        if new_obj.id != value["id"]:
+            NODE_REGISTRY.pop(new_obj.id)
+            object.__setattr__(new_obj, "id", value["id"])
+            NODE_REGISTRY[value["id"]] = new_obj
+
+''', "")], "R-DESER-ID")
+fire("c04_deser_force_before_pop", "C04", [(NODE, '''            NODE_REGISTRY.pop(new_obj.id)
+            object.__setattr__(new_obj, "id", value["id"])
+''', '''            object.__setattr__(new_obj, "id", value["id"])
+            NODE_REGISTRY.pop(new_obj.id)
+''')], "R-DESER-ID")
+fire("c04_deser_no_register", "C04", [(NODE, '''            object.__setattr__(new_obj, "id", value["id"])
+            NODE_REGISTRY[value["id"]] = new_obj
+''', '''            object.__setattr__(new_obj, "id", value["id"])
+''')], "R-DESER-ID")
+fire("c04_deser_always_new", "C04", [(NODE, "        if existing_node is not None:\n            return existing_node\n", "")], "R-DESER-ID")
+fire("c04_tag_key_drift", "C04", [(SER, "        class_name = value.get(TYPE_KEY)", "        class_name = value.get(\"type\")")], "R-TAG-TABLE")
+fire("c04_tag_qualname", "C04", [(SER, "        TYPES[cls.__name__] = cls", "        TYPES[cls.__qualname__] = cls")], "R-TAG-TABLE")
+fire("c04_unknown_class_fallback", "C04", [(SER, "        if clazz is None:\n            raise ValueError(f\"Unknown class name: {class_name}\")\n", "        if clazz is None:\n            clazz = cls\n")], "R-TAG-TABLE")
+fire("c04_noposition_not_restored", "C04", [(ORIGIN, '        if value == {} or (TYPE_KEY in value and value[TYPE_KEY] == "NoPosition"):\n            return NO_POSITION\n', '        if TYPE_KEY in value and value[TYPE_KEY] == "NoPosition":\n            return NO_POSITION\n')], "R-SINGLETON-RT")
+fire("c04_nosource_state", "C04", [(ORIGIN, '    source_uri: str = field(default="NoSource", init=False)\n    source_type: str = field(default="NoSource", init=False)', '    source_uri: str = field(default="NoSource")\n    source_type: str = field(default="NoSource", init=False)')], "R-SINGLETON-STATE")
+fire("c04_msgpack_raw", "C04", [(SER, "msgpack.unpackb(value, raw=False)", "msgpack.unpackb(value, raw=True)")], "R-FMT-PAIR")
+fire("c04_json_dialect_mismatch", "C04", [(SER, '''            orjson.loads(value),
+            mashumaro_dialect=OrjsonDialect,''', '''            orjson.loads(value),
+            mashumaro_dialect=MessagePackDialect,''')], "R-FMT-PAIR")
+fire("c04_idx_tables_diverge", "C04", [(ORIGIN, "            Source._source_idx_to_source[len(Source._sources) - 1] = self", "            Source._source_idx_to_source[len(Source._sources)] = self")], "R-IDX-PAIR")
+fire("c04_idx_key_drift", "C04", [(ORIGIN, '        idx = data.get("idx")', '        idx = data.get("index")')], "R-IDX-PAIR")
+
+# ---------------------------------------------------------------- C11
+fire("c11_F10_reverted", "C11", [(TYPING, "        f_type = type_hints.get(field.name)\n", "        f_type = field.type\n        if isinstance(f_type, str):\n            f_type = type_hints.get(field.name)\n")], "R-NORMALISE")
+fire("c11_invalid_child_becomes_property", "C11", [(TYPING, "                incorrect_fields.append((f.name, res.value, ftype))\n        else:\n            # Property\n            if is_valid_property_type(ftype):", "                props[f] = get_type_info(ftype)\n        else:\n            # Property\n            if is_valid_property_type(ftype):")], "R-ONE-LANDING")
+fire("c11_errors_not_raised", "C11", [(TYPING, "    if incorrect_fields:\n        raise InvalidFieldAnnotations(incorrect_fields)\n\n    return child_fields, props", "    return child_fields, props")], "R-ONE-LANDING")
+fire("c11_mutable_prop_accepted", "C11", [(TYPING, "            if is_valid_property_type(ftype):\n                props[f] = get_type_info(ftype)\n            else:\n                incorrect_fields.append((f.name, \"A mutable collection in type\", ftype))", "            props[f] = get_type_info(ftype)")], "R-ONE-LANDING")
+fire("c11_sibling_polarity", "C11", [(TYPING, "                if res != InvalidTypeReason.OK:\n                    incorrect_fields.append((field_name, res.value, field_type))", "                if res == InvalidTypeReason.OK:\n                    incorrect_fields.append((field_name, res.value, field_type))")], "R-CLASSIFY-SIBLING")
+fire("c11_no_definition_check", "C11", [(NODE, "        if not check_annotations(cls, ASTNode) and config.TRACE_LOGGING:", "        if config.TRACE_LOGGING:")], "R-CLASSIFY-SIBLING")
+silent("c11_equivalent", "C11", [(TYPING, "            if res == InvalidTypeReason.OK:\n                child_fields[f] = get_type_info(ftype)\n            else:\n                incorrect_fields.append((f.name, res.value, ftype))", "            if res != InvalidTypeReason.OK:\n                incorrect_fields.append((f.name, res.value, ftype))\n            else:\n                child_fields[f] = get_type_info(ftype)")])
